@@ -493,7 +493,8 @@ func (m *Module) formFor(r *rand.Rand, e *Type) Ref {
 	case e.Kind == "struct" && e.Src.Kind == "struct":
 		// wire.Struct provides both S and *S; remember the first choice so that all
 		// consumers agree (two forms in one injector are legal but make two values)
-		return Ref{Idx: e.Idx, Ptr: e.Idx%2 == 0}
+		// ... mostly: now and then a consumer asks for the other form, so that one injector builds both S and *S
+		return Ref{Idx: e.Idx, Ptr: (e.Idx%2 == 0) != (r.IntN(8) == 0)}
 	}
 	return Ref{Idx: e.Idx}
 }
